@@ -102,6 +102,12 @@ func streamKeys(c *ctx) {
 		wx[len(wx)-1] ^= 1
 		wrong[iana.EC2KeyParameterX] = wx
 		variants["private+wrong-x"] = wrong
+		wrongBS := cloneKey(withXY)
+		wrongBS[iana.EC2KeyParameterX], wrongBS[iana.EC2KeyParameterY] = key.ByteStr(wx), key.ByteStr(yFull)
+		variants["private+wrong-x-as-ByteStr"] = wrongBS
+		goodBS := cloneKey(withXY)
+		goodBS[iana.EC2KeyParameterX], goodBS[iana.EC2KeyParameterY] = key.ByteStr(xFull), key.ByteStr(yFull)
+		variants["private+xy-as-ByteStr"] = goodBS
 		wrongY := cloneKey(withXY)
 		wy := append([]byte{}, yFull...)
 		wy[len(wy)-1] ^= 1
@@ -300,6 +306,15 @@ func streamKeys(c *ctx) {
 		bad[0] ^= 1
 		bx[iana.OKPKeyParameterX] = bad
 		evariants["private+wrong-x"] = bx
+		// the same embedded x held in named byte types (what KeyFromPublic / ToPublicKey and JSON decoding produce)
+		for tn, conv := range map[string]func([]byte) any{"PublicKey": func(b []byte) any { return goed.PublicKey(b) }, "ByteStr": func(b []byte) any { return key.ByteStr(b) }} {
+			good := cloneKey(ek)
+			good[iana.OKPKeyParameterX] = conv(append([]byte{}, gpub...))
+			evariants["private+x-as-"+tn] = good
+			wrongT := cloneKey(ek)
+			wrongT[iana.OKPKeyParameterX] = conv(append([]byte{}, bad...))
+			evariants["private+wrong-x-as-"+tn] = wrongT
+		}
 		withOps := cloneKey(ek)
 		withOps[iana.KeyParameterKeyOps] = key.Ops{iana.KeyOperationSign, iana.KeyOperationVerify}
 		evariants["private+ops"] = withOps
@@ -333,8 +348,8 @@ func streamKeys(c *ctx) {
 			}
 			c.addCase(fmt.Sprintf("EdPub %s %s %s", eo.coq(), qMap(v), optMap(pk, err)), short(fmt.Sprintf("ed25519.ToPublicKey|%s|%s => err=%v", name, describe(v), err)))
 			c.nontriv(fmt.Sprintf("edpub|%s|%v", name, err == nil))
-			if (err == nil) != (name != "private+wrong-x") {
-				fail("key-encoding", "an Ed25519 private key form is not treated as the property requires ("+name+")", describe(v), err, name != "private+wrong-x")
+			if (err == nil) != !strings.Contains(name, "wrong") {
+				fail("key-encoding", "an Ed25519 private key form is not treated as the property requires ("+name+")", describe(v), err, !strings.Contains(name, "wrong"))
 			}
 			if err == nil {
 				noPrivate(pk, "ed25519.ToPublicKey", describe(v))
@@ -385,6 +400,59 @@ func streamKeys(c *ctx) {
 				} else if _, err := ecdh.KeyToPublic(ck); err != nil {
 					fail("key-public", "the compressed form of a generated ECDH key does not convert", describe(ck), err, "a point")
 				}
+			}
+		}
+		// ---- a key set built from several verifiers: one public key per verifier, in order, whatever their key ids
+		// (none, all the same, distinct)
+		for _, kidMode := range []string{"none", "same", "distinct"} {
+			var vs key.Verifiers
+			var want []string
+			for j, alg := range []int{-7, -8, -35, -7} {
+				pkv, err := genKeyFor(alg)
+				if err != nil {
+					continue
+				}
+				switch kidMode {
+				case "none":
+					delete(pkv, iana.KeyParameterKid)
+				case "same":
+					pkv[iana.KeyParameterKid] = []byte("shared")
+				default:
+					pkv[iana.KeyParameterKid] = []byte{byte(j)}
+				}
+				if j%2 == 1 && alg != -8 { // every other one from the compressed public key
+					if ck, err := ecdsa.ToCompressedKey(pkv); err == nil {
+						pkv = ck
+					}
+				}
+				v, err := pkv.Verifier()
+				if err != nil {
+					fail("key-valid", "a generated key yields no verifier", describe(pkv), err, "a verifier")
+					continue
+				}
+				vs = append(vs, v)
+				pub := v.Key()
+				if pub.Has(iana.EC2KeyParameterD) {
+					if alg == -8 {
+						pub, _ = ed25519.ToPublicKey(pub)
+					} else {
+						pub, _ = ecdsa.ToPublicKey(pub)
+					}
+				}
+				xb, _ := pub.GetBytes(iana.EC2KeyParameterX)
+				want = append(want, fmt.Sprintf("%x", xb))
+			}
+			ks := vs.KeySet()
+			c.eval()
+			c.nontriv("keyset-from-verifiers|" + kidMode)
+			var got []string
+			for _, k := range ks {
+				noPrivate(k, "Verifiers.KeySet", kidMode)
+				xb, _ := k.GetBytes(iana.EC2KeyParameterX)
+				got = append(got, fmt.Sprintf("%x", xb))
+			}
+			if strings.Join(got, ",") != strings.Join(want, ",") {
+				fail("key-public", "the key set built from verifiers does not hold exactly their public keys (key ids: "+kidMode+")", fmt.Sprintf("%d verifiers, kid mode %s", len(vs), kidMode), strings.Join(got, ","), strings.Join(want, ","))
 			}
 		}
 		// ---- an ECDH private key that carries public coordinates (RFC 9053 recommends it): its own, in each form, or
